@@ -1,3 +1,4 @@
 #![allow(unused_imports, dead_code, unused_variables, unused_mut, non_camel_case_types, unused_assignments, unused_parens, unused_braces, non_snake_case, unreachable_code, non_upper_case_globals)]
 use vstd::prelude::*;
 use vstd::string::*;
+use vstd::utf8::*;
